@@ -4,7 +4,7 @@
      delivered = inbound request ids handed to the application        inc[iid] = ResponseSent / InboundFailure seen for iid
    Statement: ids are unique; never a second outcome for the same id; an outbound outcome only for an id that was
    sent; and when everything is quiescent (the driver has failed every pending dial and closed every connection:
-   event `end`) every sent id and every delivered inbound request has exactly one outcome.
+   event end) every sent id and every delivered inbound request has exactly one outcome.
    Which kind of outcome a request gets is not constrained. *)
 EXTENDS TraceIO, FiniteSets
 VARIABLES l, sent, outc, delivered, inc
